@@ -26,15 +26,11 @@ Print Assumptions C16_eq_equivalence.
    same object for equal and equalp (every object, any nesting; the universe has no NaN). *)
 Theorem C16_reflexive : forall a,
   eql_m a a = true /\ equal_m a a = true /\ equalp_m a a = true.
-Proof.
-  intro a. unfold eql_m, equal_m, equalp_m. rewrite eq_m_refl. auto.
-Qed.
+Proof. exact refs_reflexive. Qed.
 Print Assumptions C16_reflexive.
 Theorem C16_reflexive_on_copies : forall x w w',
   equal_m (mkref x w) (mkref x w') = true /\ equalp_m (mkref x w) (mkref x w') = true.
-Proof.
-  intros x w w'. unfold equal_m, equalp_m. simpl. rewrite equal_s_refl, equalp_s_refl, !orb_true_r. auto.
-Qed.
+Proof. exact copies_reflexive. Qed.
 Print Assumptions C16_reflexive_on_copies.
 
 (* (4) symmetry of eql, equal, equalp on well-formed objects whose ratios have numerators below 2^62
@@ -111,7 +107,7 @@ Theorem C16_table_is_map_on_simple_keys : forall pool ops,
   (forall a b, In a pool -> In b pool -> consistent2 a b /\ const_words a b) ->
   forallb (op_in_range (List.length pool)) ops = true ->
   Forall2 obs_equiv (t_run pool [] ops) (s_run pool (pool_test 1 pool) [] ops).
-Proof. intros pool ops S C R. apply table_refines_map; auto. apply simple_pool_ok; auto. Qed.
+Proof. exact table_is_map_on_simple_keys. Qed.
 Print Assumptions C16_table_is_map_on_simple_keys.
 
 (* (8) refutations outside the guards: the known findings *)
